@@ -240,6 +240,19 @@ class RecurrencePlot(Cached):
                 f"Threshold {self.threshold}, {self.metric} metric")
 
     @property
+    def R(self):
+        """
+        The recurrence matrix; every assignment is counted, so that cached
+        line distributions are recomputed after any `set_*()` call.
+        """
+        return self._R
+
+    @R.setter
+    def R(self, recurrence):
+        self._R = recurrence
+        self._mut_R = getattr(self, "_mut_R", 0) + 1
+
+    @property
     def embedding(self) -> np.ndarray:
         """
         The embedded time series / phase space trajectory
@@ -843,7 +856,7 @@ class RecurrencePlot(Cached):
     #
 
     @Cached.method(attrs=(
-        "metric", "threshold", "missing_values", "sparse_rqa"))
+        "metric", "threshold", "missing_values", "sparse_rqa", "_mut_R"))
     def diagline_dist(self):
         """
         Return the :index:`frequency distribution of diagonal line lengths
@@ -1068,7 +1081,7 @@ class RecurrencePlot(Cached):
     #
 
     @Cached.method(attrs=(
-        "metric", "threshold", "missing_values", "sparse_rqa"))
+        "metric", "threshold", "missing_values", "sparse_rqa", "_mut_R"))
     def vertline_dist(self):
         """
         Return the :index:`frequency distribution of vertical line lengths
